@@ -411,6 +411,14 @@ PLANS["C15"] = dict(
     ],
 )
 
+C19_TRACE = cfg_lines("CONSTANTS", " Subjects <- TSubjects", ' TraceFile = "trace.ndjson"', "SPECIFICATION Spec", "POSTCONDITION AllConsumed", "CHECK_DEADLOCK FALSE")
+
+
+def c19_cfg(depth, subjects):
+    return mc_cfg(["Inv_C19", "Inv_Emit"], consts=[f"Depth = {depth}", "Subjects = {" + ", ".join(f'"{s}"' for s in subjects) + "}"],
+                  extra=["PROPERTY Prop_Frame", "PROPERTY Prop_Stable"])
+
+
 # ------------------------------------------------------------------ C10
 PLANS["C10"] = dict(
     level_text="notation.Verify is modelled call by call (argument check, skip check, reference parsing, resolution, digest pin, paged listing "
@@ -429,6 +437,12 @@ PLANS["C10"] = dict(
                  select=slicer(400000)),
         drive=dict(driver="notation-verify"),
         validate=dict(module="Trace_Notation", cfg=trace_cfg()),
+    ), dict(
+        # "what the repository lists" over a real OCI layout: a signature manifest that has vanished from the store that still knows it as
+        # a referrer makes the listing fail as a whole - it is not silently shortened (SigRepo.tla, kind sigManifestGone, and the rest of
+        # its item alphabet)
+        name="layout-listing", gen=dict(module="MC_SigRepo_C19", cfg=lambda tier, seed: c19_cfg(3, ["s1", "s2"]), select=slicer2(2000, 20000)),
+        drive=dict(driver="sigrepo"), validate=dict(module="Trace_SigRepo", cfg=C19_TRACE, only_rules=["listing", "no-panic"]),
     )],
 )
 
@@ -455,12 +469,7 @@ PLANS["C11"] = dict(
 )
 
 # ------------------------------------------------------------------ C19
-C19_TRACE = cfg_lines("CONSTANTS", " Subjects <- TSubjects", ' TraceFile = "trace.ndjson"', "SPECIFICATION Spec", "POSTCONDITION AllConsumed", "CHECK_DEADLOCK FALSE")
 
-
-def c19_cfg(depth, subjects):
-    return mc_cfg(["Inv_C19", "Inv_Emit"], consts=[f"Depth = {depth}", "Subjects = {" + ", ".join(f'"{s}"' for s in subjects) + "}"],
-                  extra=["PROPERTY Prop_Frame", "PROPERTY Prop_Stable"])
 
 
 PLANS["C19"] = dict(
